@@ -1,0 +1,27 @@
+//go:build verif
+
+// Contracts for the deductive verifier under /verif (govc). Comment-only file: it adds no code and is
+// compiled only with the build tag "verif".
+
+package bytes
+
+//@ func (Bytes).ParseUint
+//@   property C13 C04 C02
+//@   ensures result1 == nil <==> (len(b.data) > 0 && isdigits(b.data, len(b.data)) && natval(b.data, len(b.data)) <= 18446744073709551615)
+//@   ensures result1 == nil ==> result0 == natval(b.data, len(b.data))
+//@   no_panic
+//@   loop#1 invariant -1 <= rangeindex && rangeindex < len(b.data) && len(b.data) > 0
+//@   loop#1 invariant isdigits(b.data, rangeindex+1) && u == natval(b.data, rangeindex+1)
+//@   loop#1 decreases len(b.data) - rangeindex
+//@   at loop#1.entry use unfold_natval(b.data, 0)
+//@   at loop#1.back use unfold_natval(b.data, rangeindex+1)
+//@   at return#3 use unfold_natval(b.data, rangeindex+1); natval_prefix_le(b.data, rangeindex+1, len(b.data))
+
+//@ func (Bytes).ParseInt
+//@   property C13 C04 C02
+//@   requires len(b.data) > 0
+//@   let neg := b.data[0] == 45
+//@   let body := neg ? b.data[1:] : b.data
+//@   ensures result1 == nil <==> (len(body) > 0 && isdigits(body, len(body)) && natval(body, len(body)) <= 9223372036854775807)
+//@   ensures result1 == nil ==> result0 == (neg ? 0 - natval(body, len(body)) : natval(body, len(body)))
+//@   no_panic
